@@ -282,6 +282,20 @@ func ruleU3(c *Ctx, id string) {
 					}
 				}
 			}
+			// and every instance gets one: the constructor stores the field on every path (also when it finds an
+			// existing file system on the disk)
+			if ctor := P.Func("nfs.MakeNfs"); ctor != nil {
+				field := fl
+				isSt := func(in ssa.Instruction) bool {
+					st, ok := in.(*ssa.Store)
+					if !ok {
+						return false
+					}
+					n2, f2, _ := FieldOf(st.Addr)
+					return n2 == V.Nfs && f2 == field
+				}
+				R.Check(P.NewAlways(isSt).Func(ctor), id, fmt.Sprintf("%sVerf#%d set in every instance", key, i+1), P.Pos(ctor.Pos()), "MakeNfs stores Nfs."+fl+" on every path", "always-performs summary", "a path through MakeNfs (e.g. recovery of an existing file system) leaves the verifier zero: every restarted instance announces the same verifier and a client cannot detect that its unstable data was lost")
+			}
 			R.Check(okW && src != "" && coarse == "", id, fmt.Sprintf("%sVerf#%d per-instance provenance", key, i+1), P.Pos(st.Pos()), "Nfs."+fl+" is written only during construction, from a nanosecond clock or a random source", "constructor-only writer; source "+src, "the verifier is the same in every instance, changes while serving, or comes from a coarse clock (time."+coarse+"): two instances started in quick succession share it and a client cannot detect lost unstable data")
 		}
 	}
